@@ -17,6 +17,7 @@ import (
 	"verif/internal/instrument"
 	"verif/internal/orch"
 	"verif/internal/props"
+	"verif/internal/scen"
 )
 
 func envOr(k, d string) string {
@@ -78,6 +79,42 @@ func main() {
 			os.Exit(2)
 		}
 		os.Exit(orch.RunReplay(all, os.Args[2], opt))
+	case "exec": // debug: run one scenario (or the scenario of a replay file) and print its decoded event log and verdicts
+		b, err := os.ReadFile(os.Args[2])
+		if err != nil {
+			fmt.Println(err)
+			os.Exit(2)
+		}
+		var rp orch.Replay
+		_ = json.Unmarshal(b, &rp)
+		sc := rp.Scenario
+		if sc == nil {
+			sc = &scen.Scenario{}
+			if err := json.Unmarshal(b, sc); err != nil {
+				fmt.Println(err)
+				os.Exit(2)
+			}
+		}
+		env, err := orch.BuildWorlds(opt.VerifDir, opt.RepoDir, sc.World.Race, false, nil)
+		defer env.Cleanup()
+		if err != nil {
+			fmt.Println(err)
+			os.Exit(2)
+		}
+		run := env.Exec1(sc)
+		for _, e := range run.Events {
+			fmt.Printf("%4d t%d %-8s %s/%d w=%d n=%d a=%d d=%d l=%d f=%q err=%q s=%q v=%s p=%q\n", e.Q, e.T, e.K, e.Ph, e.Op, e.W, e.N, e.A, e.D, e.L, e.F, e.Err, e.S, string(e.V), string(e.P))
+		}
+		fmt.Printf("exit=%d timeout=%v stdout=%q stderr=%q\n", run.ExitCode, run.TimedOut, string(run.Stdout), string(run.Stderr))
+		if run.Result != nil {
+			rb, _ := json.Marshal(run.Result)
+			fmt.Println("result:", string(rb))
+		}
+		if p, ok := all[sc.Property]; ok {
+			for _, v := range p.Check(sc, run, env) {
+				fmt.Printf("VERDICT rule=%s witness=%s: %s\n", v.Rule, v.Witness, v.Detail)
+			}
+		}
 	case "gen":
 		p, ok := all[os.Args[2]]
 		if !ok || len(os.Args) < 5 {
